@@ -39,6 +39,7 @@ static inline long long IN_LL(void) { long long vp_in_v = nondet_longlong(); ret
 #define VASSERTM(c, msg)  __CPROVER_assert((c), "P: " msg)
 #define VASSUME(c)        __CPROVER_assume(c)
 #define VWITNESS(tag)     __CPROVER_assert(0, "WITNESS: " tag)
+#define VP_INTERNAL_FAIL(msg) __CPROVER_assert(0, msg)
 #define VP_ATOMIC_BEGIN() __CPROVER_atomic_begin()
 #define VP_ATOMIC_END()   __CPROVER_atomic_end()
 #else
@@ -60,6 +61,7 @@ static inline long long IN_LL(void)
 #define VASSERTM(c, msg)  do { if (!(c)) { printf("VP-ASSERT-FAIL: %s (%s:%d)\n", msg, __FILE__, __LINE__); fflush(stdout); exit(1); } } while (0)
 #define VASSUME(c)        do { if (!(c)) { printf("VP-ASSUME-FAIL: %s (%s:%d)\n", #c, __FILE__, __LINE__); fflush(stdout); exit(77); } } while (0)
 #define VWITNESS(tag)     do { } while (0)
+#define VP_INTERNAL_FAIL(msg) do { printf("VP-INTERNAL: %s\n", msg); exit(79); } while (0)
 #define VP_ATOMIC_BEGIN() do { } while (0)
 #define VP_ATOMIC_END()   do { } while (0)
 #define __CPROVER_assume(c) VASSUME(c)
